@@ -119,6 +119,10 @@ func main() {
 			})
 		}
 	})
+	runner.FineP = 2 // statement-level points in the files of fine.txt
+	if rep.Thorough() {
+		runner.FineP = 3
+	}
 	runner.Run(rep, concurrentScenarios(rep.Thorough()))
 	rep.Finish()
 }
